@@ -9,6 +9,7 @@
 import DiskfsModel.Proofs.GptWhole
 import DiskfsModel.Proofs.GptValid
 import DiskfsModel.Proofs.GptIdem
+import DiskfsModel.Proofs.GptGeomWhole
 import DiskfsModel.Proofs.MbrTable
 import DiskfsModel.Proofs.MbrRead
 import DiskfsModel.Generated.GptCodec
@@ -359,5 +360,96 @@ theorem facts_agree_codec_offsets :
 example : EntryWF { index := 3, start := 34, end_ := 2047, size := 0, typ := List.replicate 16 7, guid := List.replicate 16 9,
                     attrs := 2 ^ 63, name := [0x41, 0x1F600, 0x4E2D] } :=
   ⟨by decide, by decide, by decide, by decide, by decide, by decide, by decide, by decide⟩
+
+/-! ### ANY WELL-FORMED GEOMETRY (Model/GptGeom.lean; Proofs/GptGeomWhole.lean): a table gpt.Read returned
+    from a foreign disk and that was then edited — other entry counts (4, 30, 32, 64, 256, …), arrays that do
+    not end on a sector boundary, aligned first usable LBA, any sector size ≥ 512.  `writeUp` is table.go
+    Write as it is now (array sectors rounded UP, b8755c1): an initialised table keeps the geometry its header
+    carried and Write ignores its size argument; `GeomWF` is the explicit well-formedness of that geometry. -/
+
+/-- BRIDGE: on the domain of the theorems above (fresh table, 512/4096-byte sectors) the model the driver
+    executes, `writeUp`, IS `write` -/
+theorem write_up_is_write (c : Cfg) (crc : Bytes → Nat) (t0 : Table) (size : Nat) (hf : Fresh t0)
+    (hl : t0.lss = 512 ∨ t0.lss = 4096) : writeUp c crc t0 size = write c crc t0 size :=
+  writeUp_eq_write c crc t0 size hf hl
+
+/-- READ ∘ WRITE, ANY WELL-FORMED GEOMETRY: for EVERY prior device content, what Write emits for an initialised
+    table of well-formed geometry with well-formed entries reads back through gpt.Read — from the primary
+    copy — as the same partitions (slot order over the table's n slots), the same disk GUID (disk identity)
+    and the same geometry: header LBAs, usable range, entry count, array at LBA 2 -/
+theorem gpt_read_write_geom (c : Cfg) (crc : Bytes → Nat) (hcrc : ∀ b, crc b < two32) (d : Dev)
+    (t : Table) (size : Nat) (ws : List Wr) (t' : Table) (hg : GeomWF t size)
+    (hwf : ∀ p ∈ t.parts, allZero p.typ = true ∨ (EntryWF p ∧ p.size < two64))
+    (hw : writeUp c crc t size = .ok (ws, t')) :
+    ∃ tr, (read c crc (applyWrs d ws) size t.lss).1 = .ok tr ∧ tr.parts = normParts t'.parts t.arrCount ∧
+      tr.guid = t.guid ∧ tr.backup = false ∧ tr.primaryHeader = 1 ∧ tr.secondaryHeader = t.secondaryHeader ∧
+      tr.firstData = t.firstData ∧ tr.lastData = t.lastData ∧ tr.arrCount = t.arrCount ∧ tr.entSize = 128 ∧
+      tr.firstLBA = 2 ∧ tr.initialized = true :=
+  read_write_geom c crc hcrc d t size ws t' hg hwf hw
+
+/-- …in particular a FRESH table on ANY sector size ≥ 512 (1024, 2048, 8192, …; `gpt_read_write` above is the
+    512/4096 case): `initTable` makes it a table of well-formed geometry with 128 slots -/
+theorem gpt_read_write_any_sector_size (c : Cfg) (crc : Bytes → Nat) (hcrc : ∀ b, crc b < two32) (d : Dev)
+    (t0 : Table) (size : Nat) (ws : List Wr) (t' : Table)
+    (hf : Fresh t0) (hl : 512 ≤ t0.lss) (hgd : t0.guid.length = 16) (hsz : size < two63)
+    (hmin : (2 * ((16384 + t0.lss - 1) / t0.lss) + 3) * t0.lss ≤ size)
+    (hwf : ∀ p ∈ t0.parts, allZero p.typ = true ∨ (EntryWF p ∧ p.size < two64))
+    (hw : writeUp c crc t0 size = .ok (ws, t')) :
+    ∃ tr, (read c crc (applyWrs d ws) size t0.lss).1 = .ok tr ∧ tr.parts = normParts t'.parts 128 ∧
+      tr.guid = t0.guid ∧ tr.backup = false := by
+  obtain ⟨hg, hp, hgu, _, hl', hac⟩ := initTableUp_geom t0 size hf hl hgd hsz hmin
+  rw [writeUp_fresh c crc t0 size hf] at hw
+  obtain ⟨tr, h1, h2, h3, h4, _⟩ := read_write_geom c crc hcrc d (initTableUp t0 size) size ws t' hg (by rw [hp]; exact hwf) hw
+  rw [hl'] at h1
+  exact ⟨tr, h1, by rw [h2, hac], by rw [h3, hgu], h4⟩
+
+/-- VALID FOR AN INDEPENDENT PARSER, ANY WELL-FORMED GEOMETRY: for EVERY prior device content, the bytes Write
+    leaves for an initialised table with well-formed geometry and a sane usable range (`UsableWF`: Write copies
+    FirstUsableLBA / LastUsableLBA from the table without checking them) satisfy `GptSpec.GptValid` — both header
+    CRCs, both array CRCs over n·128 bytes, backup mirrors primary, layout without overlap with the array
+    sectors rounded up — and `PmbrValid` when a protective MBR is requested (repaired size clamp) -/
+theorem gpt_written_valid_geom (c : Cfg) (crc : Bytes → Nat) (hcrc : ∀ b, crc b < two32) (d : Dev)
+    (t : Table) (size : Nat) (ws : List Wr) (t' : Table) (hg : GeomWF t size) (hu : UsableWF t)
+    (hw : writeUp c crc t size = .ok (ws, t')) :
+    GptSpec.GptValid crc (applyWrs d ws) size t.lss ∧
+    (t.pmbr = true → c.pmbrClamp = true → GptSpec.PmbrValid (applyWrs d ws) size t.lss) :=
+  ⟨written_gpt_valid_geom c crc hcrc d t size ws t' hg hu hw,
+   fun hpm hcl => written_pmbr_valid_geom c crc d t size ws t' hg hpm hcl hw⟩
+
+/-- …in particular for a fresh table on any sector size ≥ 512 (`initTable` computes a sane usable range) -/
+theorem gpt_written_valid_any_sector_size (c : Cfg) (crc : Bytes → Nat) (hcrc : ∀ b, crc b < two32) (d : Dev)
+    (t0 : Table) (size : Nat) (ws : List Wr) (t' : Table)
+    (hf : Fresh t0) (hl : 512 ≤ t0.lss) (hgd : t0.guid.length = 16) (hsz : size < two63)
+    (hmin : (2 * ((16384 + t0.lss - 1) / t0.lss) + 3) * t0.lss ≤ size)
+    (hw : writeUp c crc t0 size = .ok (ws, t')) :
+    GptSpec.GptValid crc (applyWrs d ws) size t0.lss := by
+  obtain ⟨hg, _, _, _, hl', _⟩ := initTableUp_geom t0 size hf hl hgd hsz hmin
+  rw [writeUp_fresh c crc t0 size hf] at hw
+  have := written_gpt_valid_geom c crc hcrc d (initTableUp t0 size) size ws t' hg
+    (initTableUp_usable t0 size hf hl hgd hsz hmin) hw
+  rw [hl'] at this
+  exact this
+
+/-- the repaired Write accepts an initialised table only when its AlternateLBA leaves room for both copies
+    (2·p + 2 ≤ AlternateLBA, p the array sectors rounded up): with the backup header at the device's last LBA
+    this is the `fits` clause of `GeomWF` — Write itself never compares AlternateLBA with the device size -/
+theorem write_up_ok_fits (c : Cfg) (crc : Bytes → Nat) (t : Table) (size : Nat) (ws : List Wr) (t' : Table)
+    (hc : c.minDiskCheck = true) (hi : t.initialized = true) (hl : 0 < t.lss) (hph : t.primaryHeader = 1)
+    (hps : partSectorsUp t < two32) (hw : writeUp c crc t size = .ok (ws, t')) :
+    2 * partSectorsUp t + 2 ≤ t.secondaryHeader :=
+  writeUp_ok_fits c crc t size ws t' hc hi hl hph hps hw
+
+/-- a table as gpt.Read returns it for a valid foreign GPT with 30 entries (3840-byte array = 7.5 sectors),
+    first usable LBA 34, on a disk of 100 sectors of 512 bytes, one partition in slot 30 -/
+def exT30 : Table :=
+  { parts := [{ index := 30, start := 40, end_ := 47, size := 4096, typ := List.replicate 16 7,
+                guid := List.replicate 16 9, attrs := 0, name := [0x61] }],
+    lss := 512, guid := List.replicate 16 3, pmbr := true, initialized := true, arrCount := 30,
+    entSize := 128, firstLBA := 2, primaryHeader := 1, secondaryHeader := 99, firstData := 34, lastData := 90 }
+
+set_option maxRecDepth 100000 in
+-- non-vacuity of the geometry theorems: well-formed geometry, sane usable range, Write accepts it
+example : GeomWF exT30 51200 ∧ (writeUp Cfg.fixed (fun _ => 0) exT30 51200).isOk = true := by decide
+example : UsableWF exT30 := ⟨by decide, by decide, by decide, by decide⟩
 
 end Diskfs.Gpt.C02
